@@ -19,6 +19,7 @@ import (
 	"fmt"
 	"math"
 	"math/rand"
+	"os"
 	"strconv"
 	"strings"
 	"time"
@@ -34,6 +35,8 @@ type c08 struct{}
 func init() { props["C08"] = c08{} }
 
 const c08Small = 40
+
+var c08Debug = os.Getenv("C08_DEBUG") != ""
 
 var c08Gaps = []float64{2.0, 1.0, 0.5, 3.0, 0.0}
 var c08Scales = []float64{1.0, 0.5, 1.5}
@@ -427,7 +430,23 @@ func (c08) Gen(rng *rand.Rand, tier string, emit func(string)) {
 }
 
 // witnesses for D12 found on the unpatched code (see notes/patches/C08-*.msg)
-var c08Witnesses = []string{}
+var c08Witnesses = []string{
+	// D12: local alignment starts with the other gap; unpatched path -1,1,-1,3,-1,1,-2,0 uses 10 of 11 bases of A
+	"pe 1 0 1 0 0 0 0 1 6363677463616761636763 14140014145d141e000114 746361676163 010001000000 F=6363677463616761636763:0:3",
+	// D12: local alignment ends with the other gap (40 x 16, delta 5)
+	"pe 1 0 5 0 0 0 5 10 6763646163676377636167677467686176677463616174637474746367677767616e616867676174 145d0000141e141e0101140014011414001400141414145d1e141e01001e14145d5d5d0014011e01 74676763746163636363636167677467 00010202000100020201020001010102 F=746767637461636363636361676774677461636774636161746361747463676761676163616767676174:2:0",
+	"pe 1 1 5 4 0 0 1 1 63616763726774617463746174686368796e6d637974637463 28282828282828282828282828282828282828282828282828 6e67676e 28292526 F=63616763676774617463746174746367636761636374637463:0:3",
+	// non-finite score table entry: mismatch between two quality-0 bases (unpatched: -9223372036854775808, sums wrap)
+	"pe 0 0 1 0 0 10 7 10 677467 000000 7467 0000 F=677467:0:1",
+	"pe 1 0 1 0 0 1 0 1 6763636761 0000000000 67616761 00000000",
+	// seq_a_single / seq_b_single: identical starts, B longer, one substitution (fast: shift 0 is a right alignment ending with bases of B)
+	"pe 1 0 5 0 0 4 0 1 6163677461636761746367617463677461676374 2828282828282828282828282828282828282828 616367746163676174636761746367746167637461676374 282828282828282828282828282828282828282828282828",
+	"pe 1 0 5 0 0 4 0 1 6163677461636761746367617463677461676774 2828282828282828282828282828282828282828 616367746163676174636761746367746167637461676374 282828282828282828282828282828282828282828282828",
+	// reads without any common 4-mer and shorter than 4 bases (unpatched: taken as an identical overlap, A read past its end)
+	"pe 1 0 0 0 0 1 0 1 61 28 616367 282828",
+	"pe 1 1 5 0 0 1 0 1 6174 2828 676761 282828",
+	"pe 1 1 1 0 0 1 0 1 6174616774677461676363 2828282828282828282828 6761 2828",
+}
 
 // ---------------------------------------------------------------------------------------------
 // independent reference
@@ -1142,11 +1161,26 @@ func (c08) Exec(c string) (string, []Fail) {
 				oL, nL := ref.opt(true)
 				oR, nR := ref.opt(false)
 				tL, tR := ref.pathScore(tp, true), ref.pathScore(tp, false)
-				hyp := (oL > oR && tL == oL && nL == 1) || (oR >= oL && tR == oR && nR == 1 && (oR > oL || true) && !(oL > oR))
+				hyp := (oL > oR && tL == oL && nL == 1) || (!(oL > oR) && tR == oR && nR == 1)
+				contained := (cs.a0 < cs.b0 && cs.a0+la > cs.b0+lb) || (cs.b0 < cs.a0 && cs.b0+lb > cs.a0+la)
 				if hyp {
 					stat("errorfree:exact-unique-optimum")
 					if r3 != "ok" || string(cseq) != string(frag) {
 						addf("reassembly.exact", "error-free reads (overlap %d), true path %s is the unique optimum; consensus %q != fragment %q", ov, c08PathStr(tp), cseq, frag)
+					}
+				} else if contained && ov >= max(cs.minov, 4) && (r3 != "ok" || string(cseq) != string(frag)) {
+					// strict containment: neither scheme has both overhangs of the same read free (by design)
+					addf("reassembly.exact-containment", "error-free reads, one strictly contained in the other (overlap %d, true path %s scores %d/%d, optimum %d/%d); path %s; consensus %q != fragment %q", ov, c08PathStr(tp), tL, tR, oL, oR, c08PathStr(path), cseq, frag)
+				} else if !contained {
+					stat("errorfree:exact-ambiguous")
+					if r3 != "ok" || string(cseq) != string(frag) {
+						stat("errorfree:exact-ambiguous-differs")
+						if ov >= 20 {
+							stat("errorfree:exact-ambiguous-differs-ov20")
+							if c08Debug {
+								addf("debug.ambiguous", "ov %d tp %s tL %d tR %d oL %d(%d) oR %d(%d) path %s", ov, c08PathStr(tp), tL, tR, oL, nL, oR, nR, c08PathStr(path))
+							}
+						}
 					}
 				}
 			} else {
